@@ -175,6 +175,12 @@ func build(stmt *Statement, parent reflect.Value, types *typeDictionary) (v refl
 	for _, ss := range stmt.statements {
 		found[ss.Keyword] = true
 		fn := y.funcs[ss.Keyword]
+		switch ss.Keyword {
+		case "Name", "Statement", "Parent":
+			// These name the special fields of the node itself;
+			// they are not YANG keywords.
+			fn = nil
+		}
 		switch {
 		case fn != nil:
 			// Normal case, the keyword is known.
